@@ -186,12 +186,8 @@ func fastErrorReturn(d *wfDesc) func(r *Event) bool {
 		if !(e.K == KSym && e.Sym.Kind == SOut) {
 			return false
 		}
-		lits, ok := d.X.S.literals(r.Guard)
-		if !ok {
-			return false
-		}
-		for _, lt := range lits {
-			if lt.Atom == d.X.S.SymTerm(fx.Sym) && lt.Pos {
+		for _, ex := range posExits(d.X.S, d.Sum, r.Guard) {
+			if ex == fx {
 				return true
 			}
 		}
